@@ -5,7 +5,7 @@
        calendar r_work; the correspondence recomputes it from the project text). *)
 From Coq Require Import ZArith List Bool.
 Require Import SP.Base.PyRt SP.Gen.WorkingHoursCy SP.Gen.WorkingHoursPy SP.Spec.Hours SP.Proofs.HoursProofs
-               SP.Model.Sched SP.Proofs.SchedInv.
+               SP.Model.Sched SP.Proofs.SchedInv SP.Model.Calendar SP.Model.SchedIO SP.Proofs.CalendarProofs.
 Import ListNotations.
 Open Scope Z_scope.
 
@@ -22,6 +22,18 @@ Print Assumptions C02_onshift_cython.
 Theorem C02_schedule : forall p b, In b (bookings (schedule p)) -> r_work (res_of p (b_res b)) (b_slot b) = true.
 Proof. intros p. apply (inv_work p _ (schedule_inv p)). Qed.
 Print Assumptions C02_schedule.
+
+(* for a resource whose calendar is computed inside the model (weekly hours or the default calendar, minus
+   leave / vacation / holiday intervals): every booking starts at an instant inside the declared hours
+   (hours_spec, proved equal to the regenerated tests above) and outside every interval *)
+Theorem C02_calendar : forall p b tbl off start g lims,
+  In b (bookings (schedule p)) ->
+  res_of p (b_res b) = mk_resource_cal tbl off start g (p_upper p) lims ->
+  let t := slot_time start g (b_slot b) in
+  existsb (in_iv t) off = false /\
+  match tbl with Some tb => hours_spec tb (dt_weekday t) (minute_of_day t) | None => default_hours t end = true.
+Proof. exact booking_in_calendar. Qed.
+Print Assumptions C02_calendar.
 
 (* non-vacuity: Monday 22:00-06:00 covers Monday 23:00 and Tuesday 03:00, not Monday 03:00 *)
 Example C02_example :
